@@ -320,6 +320,20 @@ func c16Run(ctx *core.Ctx) {
 			forLayouts(ctx, inj.Tag, inj.M, dev, 0, func(r *ref.Rendered, lc *layoutCase) { c16Exact(ctx, inj.Kind, inj.Mark, r, lc) })
 		}
 	}
+	// (2b) the same far down a large document: every injection with a known position into a small tail behind a size sweep
+	// (line numbers of two to four digits, columns behind names of a thousand characters)
+	sweepTailInjections([]int{13, 65, 100}, func(k int, tag, kind, mark string, m *ref.Model) bool {
+		if mark == "" || !ctx.Mine(k) {
+			return true
+		}
+		if ctx.Expired() {
+			ctx.Cap("wall-clock cap in the size sweeps")
+			return false
+		}
+		ctx.Eval(1)
+		forLayouts(ctx, tag, m, 0, 0, func(r *ref.Rendered, lc *layoutCase) { c16Exact(ctx, kind, mark, r, lc); ctx.Flag("c16:sweeps") })
+		return true
+	})
 	// (3) merge conflicts: file + line, under layouts of the files
 	sets := c16MergeSets()
 	for _, fs := range mergeSets(false) {
@@ -360,7 +374,7 @@ func c16Run(ctx *core.Ctx) {
 func init() {
 	core.Register(&core.Check{
 		ID: "C16",
-		Rule: "(bounds) every string of <= 3 lexemes (thorough: 4 over a reduced alphabet) over a 38-lexeme DSL alphabet appended to each of 10 valid document prefixes; every syntax error of a rejected string must lie inside the input; the same for every DSL text of the shared test-data corpus and all its single mutations (quick: every 12th document). " +
+		Rule: "(2b) every injection with a known position into a small tail that follows a size-sweep model (sizes 13, 65, 100; names of 1100 characters; line numbers of two to four digits); (bounds) every string of <= 3 lexemes (thorough: 4 over a reduced alphabet) over a 38-lexeme DSL alphabet appended to each of 10 valid document prefixes; every syntax error of a rejected string must lie inside the input; the same for every DSL text of the shared test-data corpus and all its single mutations (quick: every 12th document). " +
 			"(exact) every listener-level injection (duplicate relation/condition/parameter, extend in a model, type extended twice) at every site x renderings (uniform styles, single deviations for every 3rd / all) - the error must stand on the offending name given by the renderer's source map. " +
 			"(merge) every conflict-carrying file set of C07 plus 4 look-alike sets (longer-named declarations and same-named relations of other types placed before the conflict) x file orders x layout styles - File and Line must be those of a conflicting declaration. " +
 			"states = distinct error signatures, non-trivial = distinct injected texts",
@@ -372,7 +386,7 @@ func init() {
 		Technique: "bounded exhaustive enumeration of texts / injections x layouts with a source-map oracle",
 		Run:       c16Run,
 		Finish: func(r *core.Result) error {
-			need := []string{"c16:rejected-text", "c16:accepted-text", "c16:corpus-mutations", "c16:merge:duplicate-type", "c16:merge:duplicate-condition", "c16:merge:missing-extension-target", "c16:merge:relation-clash"}
+			need := []string{"c16:rejected-text", "c16:accepted-text", "c16:corpus-mutations", "c16:sweeps", "c16:merge:duplicate-type", "c16:merge:duplicate-condition", "c16:merge:missing-extension-target", "c16:merge:relation-clash"}
 			for k := range c16Msg {
 				need = append(need, "c16:exact:"+k)
 			}
